@@ -1,6 +1,7 @@
 (* Props/C17.v — pinned statements for property C17 (the serde bridge round-trips the serde data model with
    the documented representation).  Statements only; proofs live in Proofs/Serde*.v. *)
-From MC Require Import Bytes Monad Cbor Encoder Decoder Types Serde SerdeDoc SerdeFacts SerdeRtFacts SerdeAnyFacts.
+From MC Require Import Bytes Monad Cbor Encoder Decoder Types Serde SerdeDoc SerdeCont SerdeAny SerdeFacts SerdeRtFacts SerdeAnyFacts
+  SerdeContentFacts SerdeBufFacts SerdeAnyRtFacts SerdeAdjFacts SerdeFlatFacts SerdeFamilyFacts.
 Local Open Scope N_scope.
 
 (* The bytes the bridge writes for a call tree whose arguments are values of the Rust parameter types are
@@ -27,11 +28,8 @@ Proof. exact ser_s_total. Qed.
    with any sufficient fuel: deserialising the serialisation returns the value and stops exactly after the item.
    Excluded: an Option directly inside an Option (the documented exception).
 
-   GOAL (full statement, not proved for the any-driven shapes — internally / adjacently tagged, untagged,
-   flattened — whose serde-side visitors are modelled but validated by the correspondence only):
-     forall c sh v, typed sh v -> opt_in_opt sh = false -> opaque_under_any sh = false ->
-       run (de_auto c sh) (flat (ser_s c v) ++ rest) = (Ok v, …)
-   `direct sh` implies `opaque_under_any sh = false`; for the complement see C17_any_refuted_*. *)
+   For the shapes that go through deserialize_any see C17_roundtrip_any below; for the F12 class
+   C17_any_refuted_*. *)
 Theorem C17_roundtrip_partial : forall c sh v cs fuel rest p L,
   direct sh = true -> shape_ok sh = true -> opt_in_opt sh = false -> conforms sh v = true ->
   ser_s c v = Some cs -> (length (flat cs) < fuel)%nat -> p + len (flat cs) <= L ->
@@ -44,6 +42,63 @@ Theorem C17_roundtrip_auto_partial : forall c sh v cs rest,
   ser_s c v = Some cs ->
   run (de_auto c sh) (flat cs ++ rest) = (Ok v, mkdst (len (flat cs)) rest (len (flat cs ++ rest))).
 Proof. exact roundtrip_auto. Qed.
+
+(* Round trip for EVERY shape of the model's shape universe, the ones that go through the bridge's deserialize_any
+   and serde's Content buffer included: primitives, strings, bytes, options, unit, unit / newtype / tuple / plain
+   structs, sequences, maps, tuples, externally tagged enums; INTERNALLY TAGGED enums (TaggedContentVisitor's tag
+   search, then ContentDeserializer on the buffered rest); UNTAGGED enums (ContentRefDeserializer, first variant
+   that deserialises); ADJACENTLY TAGGED enums (the bridge writes the tag first, so the content is read directly
+   with the variant known); structs with #[serde(flatten)] fields (the key loop reads the known fields directly and
+   buffers every other entry; FlatStructAccess claims the entries of each flattened struct, re-read through
+   ContentDeserializer; FlatMapAccess gives a flattened map every unclaimed entry, re-read through
+   ContentRefDeserializer; a flattened () takes nothing); the keep-everything visitor ShAny; every composition.
+   For every value v of the shape (`conf_any`: the call tree the derived Serialize makes; `sval_ok`: arguments in
+   range, true lengths) that is outside the F12 class (`f12_free`, on shape and value; checks/serdegen.py f12_hit
+   is its mirror and checks/C17.py compares the two on every case) and whose shape has no Option directly inside
+   an Option, with the side condition of untagged enums (`untagged_disjoint`: an earlier variant rejects what a
+   later variant writes; proved for the family by C17_family_side_conditions and asserted, through the driver, for
+   every family type) and static well-formedness (`shape_ok_any`: names are text and distinct, payload kinds; of the
+   flattened kinds the model has struct, map — as the last field, since it takes every unclaimed entry — and ()),
+   in EVERY feature configuration c in which the serializer accepts the value (without alloc only collect_str is
+   refused, C17_total), at any position of any input, with any fuel above the length:
+   de_s returns exactly v (no canonical form is needed: for ShAny `conf_any` = `any_canon` says v is one of the
+   call trees the visitor can produce) and stops right after the item.
+   Not in the model (hence `conf_any` / `buf_conf` false there): tagged / flattened types nested below a buffered
+   node, flattened enums / options.  `conf_any` also excludes the two key clashes serde cannot represent in any
+   format (a map key equal to the tag of an internally tagged enum; a flattened map key equal to a sibling field). *)
+Theorem C17_roundtrip_any : forall c sh v cs fuel rest p L,
+  shape_ok_any sh = true -> opt_in_opt sh = false -> untagged_disjoint sh = true ->
+  conf_any sh v = true -> f12_free sh v = true -> sval_ok v = true ->
+  ser_s c v = Some cs -> (length (flat cs) < fuel)%nat -> p + len (flat cs) <= L ->
+  de_s c sh fuel (mkdst p (flat cs ++ rest) L) = (Ok v, mkdst (p + len (flat cs)) rest L).
+Proof. exact roundtrip_all_at. Qed.
+
+(* the same on a whole input with the fuel the driver supplies *)
+Theorem C17_roundtrip_any_auto : forall c sh v cs rest,
+  shape_ok_any sh = true -> opt_in_opt sh = false -> untagged_disjoint sh = true ->
+  conf_any sh v = true -> f12_free sh v = true -> sval_ok v = true -> ser_s c v = Some cs ->
+  run (de_auto c sh) (flat cs ++ rest) = (Ok v, mkdst (len (flat cs)) rest (len (flat cs ++ rest))).
+Proof. exact roundtrip_all_auto. Qed.
+
+(* the two layers the proof goes through, each for every call tree / every shape:
+   deserialize_any + ContentVisitor buffer the serialisation of v as cont_of v … *)
+Theorem C17_content_buffer : forall c v fuel cs rest p L,
+  sval_ok v = true -> ser_s c v = Some cs -> (length (flat cs) < fuel)%nat -> p + len (flat cs) <= L ->
+  de_content c fuel (mkdst p (flat cs ++ rest) L) = (Ok (cont_of v), mkdst (p + len (flat cs)) rest L).
+Proof. intros c v fuel cs rest p L Hok Hs Hf HL. exact (de_content_rt c v fuel cs Hok Hs Hf rest p L HL). Qed.
+
+(* … and ContentDeserializer (owned) / ContentRefDeserializer re-reading that buffer give v back, with their
+   leniencies (integers of any width, visit_some / visit_none, transparent newtype structs, sequences for tuples,
+   the untagged "first variant that deserialises" loop), for every value without an F12 leaf *)
+Theorem C17_content_reread : forall sh owned v,
+  shape_ok_any sh = true -> opt_in_opt sh = false -> untagged_disjoint sh = true ->
+  buf_conf owned sh v = true -> fc owned sh (cont_of v) = Some v.
+Proof. intros sh owned v. exact (fc_rt sh owned v). Qed.
+
+(* the static side conditions hold for the internally / adjacently tagged, untagged and flattened types of the family *)
+Theorem C17_family_side_conditions :
+  forallb (fun sh => shape_ok_any sh && negb (opt_in_opt sh) && untagged_disjoint sh) fam_any = true.
+Proof. exact family_side_conditions. Qed.
 
 (* F12: the unrestricted statement is false.  Concrete witnesses (exact outcomes of the model, replayed on the
    real crates by checks/C17.py): an untagged unit variant, a unit in a flattened struct, a char in an untagged
@@ -113,9 +168,71 @@ Example C17_roundtrip_example :
   direct sh = true /\ shape_ok sh = true /\ opt_in_opt sh = false /\ conforms sh v = true /\ ser_s cfg_full v <> None.
 Proof. vm_compute. repeat split; discriminate. Qed.
 
+(* any-driven round trips with non-trivial values: the hypotheses of C17_roundtrip_any are satisfiable *)
+Example C17_any_internal_example :
+  all_hyps ex_internal ex_internal_v = true /\ rt_result ex_internal ex_internal_v = Some (Ok ex_internal_v, 36, 36).
+Proof. exact internal_example. Qed.
+
+Example C17_any_untagged_tuple_example :
+  let v := STuple 2 [SI B16 (-300); SStr [97; 98]] in
+  all_hyps fam_Unt v = true /\ rt_result fam_Unt v = Some (Ok v, 7, 7).
+Proof. exact untagged_tuple_example. Qed.
+
+Example C17_any_untagged_seq_example :
+  let v := SSeq (Some 2) [SI B16 1; SI B16 (-2)] in
+  all_hyps fam_Unt v = true /\ rt_result fam_Unt v = Some (Ok v, 3, 3).
+Proof. exact untagged_seq_example. Qed.
+
+Example C17_any_adjacent_example :
+  let v1 := SStruct 2 [([116], SUnitVariant 3 [68]); ([99], SStruct 2 [([120], SU B8 200); ([121], SSome (SI B8 (-100)))])] in
+  let v2 := SStruct 2 [([116], SUnitVariant 5 [67; 104]); ([99], SChar 8364)] in
+  all_hyps fam_Adj v1 = true /\ rt_result fam_Adj v1 = Some (Ok v1, 16, 16) /\
+  all_hyps fam_Adj v2 = true /\ rt_result fam_Adj v2 = Some (Ok v2, 11, 11).
+Proof. exact adjacent_example. Qed.
+
+Example C17_any_flatten_example :
+  all_hyps ex_flat ex_flat_v = true /\ rt_result ex_flat ex_flat_v = Some (Ok ex_flat_v, 23, 23).
+Proof. exact flatten_example. Qed.
+
+Example C17_any_flatten_map_example :
+  let v := SMap None [SStr [97]; SU B8 1; SStr [111]; SNone; SStr [107]; SI B16 5; SStr [108]; SI B16 (-5)] in
+  all_hyps fam_FlM v = true /\ rt_result fam_FlM v = Some (Ok v, 14, 14).
+Proof. exact flatten_map_example. Qed.
+
+(* F12 below a flattened node: what is outside the class reads back, what is inside does not *)
+Example C17_any_flatten_f12_interaction :
+  (let v := SMap None [SStr [97]; SU B8 1; SStr [98]; SUnit; SStr [99]; SChar 97] in
+   all_hyps fam_FlU v = true /\ rt_result fam_FlU v = Some (Ok v, 12, 12)) /\
+  (let v := SMap None [SStr [97]; SU B8 1; SStr [107]; SUnitStruct] in
+   all_hyps fam_FlK v = true /\ rt_result fam_FlK v = Some (Ok v, 8, 8)) /\
+  (let v := SMap None [SStr [97]; SU B8 1] in
+   all_hyps fam_FlMK v = true /\ rt_result fam_FlMK v = Some (Ok v, 5, 5)) /\
+  (let v := SMap None [SStr [97]; SU B8 1; SStr [117]; SUnit] in
+   conf_any fam_FlF v = true /\ f12_free fam_FlF v = false /\ rt_result fam_FlF v = Some (Err Message, 8, 8)) /\
+  (let v := SMap None [SStr [97]; SU B8 1; SStr [99]; SChar 97] in
+   conf_any fam_FlFC v = true /\ f12_free fam_FlFC v = false /\ rt_result fam_FlFC v = Some (Err Message, 9, 9)) /\
+  (let v := SMap None [SStr [97]; SU B8 1; SStr [120]; SUnitStruct] in
+   conf_any fam_FlMK v = true /\ f12_free fam_FlMK v = false /\ rt_result fam_FlMK v = Some (Err Message, 8, 8)) /\
+  (let v := SMap None [SStr [97]; SU B8 1; SStr [120]; SChar 97] in
+   conf_any fam_FlMC v = true /\ f12_free fam_FlMC v = false /\ rt_result fam_FlMC v = Some (Err Message, 9, 9)).
+Proof. exact flatten_f12_interaction. Qed.
+
+Example C17_f12_witnesses_not_free :
+  f12_free w_untagged_unit SUnit = false /\ f12_free w_untagged_char (SChar 97) = false /\
+  f12_free w_flat_unit (SMap None [SStr [97]; SU B8 1; SStr [117]; SUnit]) = false /\
+  f12_free w_internal_char (SStruct 2 [([116], SStr [86]); ([99], SChar 97)]) = false /\
+  f12_free w_untagged_unit_struct SUnitStruct = false /\
+  f12_free w_internal_unit_struct (SStruct 2 [([116], SStr [86]); ([107], SUnitStruct)]) = true.
+Proof. exact f12_witnesses_not_free. Qed.
+
 Print Assumptions C17_repr.
 Print Assumptions C17_wf.
 Print Assumptions C17_total.
 Print Assumptions C17_roundtrip_partial.
 Print Assumptions C17_roundtrip_auto_partial.
 Print Assumptions C17_any_refuted_untagged_unit.
+Print Assumptions C17_roundtrip_any.
+Print Assumptions C17_roundtrip_any_auto.
+Print Assumptions C17_content_buffer.
+Print Assumptions C17_content_reread.
+Print Assumptions C17_family_side_conditions.
